@@ -295,11 +295,11 @@ func (rr *routingRun) findByTag(tag int) *model.Route {
 	return nil
 }
 
-// starSegmentFinding recognises the known finding C01/star-segment-prefers-catch-all: the request has a segment that
-// begins with '*', and fox answers with a route whose catch-all captured text beginning with that '*' although the
+// starSegmentFinding recognises the known finding C01/star-segment-prefers-catch-all: the request has a '*' where a
+// wildcard begins its capture (at the start of a segment, or after a static prefix as in /ab*{c}), and fox answers with a route whose catch-all captured text beginning with that '*' although the
 // documented order (static, then parameter, then catch-all) selects another route. Nothing else is covered by it.
 func (rr *routingRun) starSegmentFinding(p world.Probe) bool {
-	if !strings.Contains(p.Path, "/*") {
+	if !strings.Contains(p.Path, "*") {
 		return false
 	}
 	var rd world.Reader = rr.w.R
@@ -394,7 +394,14 @@ func runC01(src sim.Source, o Opts) *Result {
 				if segs := strings.Split(p.Path, "/"); len(segs) > 1 {
 					k := 1 + src.Intn("starsegmentat", len(segs)-1)
 					if segs[k] != "" {
-						segs[k] = sim.Pick(src, "starsegmentmark", []string{"*", "*", "{"}) + segs[k]
+						mark := sim.Pick(src, "starsegmentmark", []string{"*", "*", "{"})
+						if at := src.Intn("starsegmentoffset", 3); at > 0 && at < len(segs[k]) {
+							// ... or right after the first byte(s) of the segment: where a wildcard with a static prefix
+							// (/ab{p}, /ab*{c}) begins its capture
+							segs[k] = segs[k][:at] + mark + segs[k][at:]
+						} else {
+							segs[k] = mark + segs[k]
+						}
 						p.Path = strings.Join(segs, "/")
 						res.inc("probes_with_a_segment_starting_with_a_wildcard_marker")
 					}
